@@ -1,6 +1,21 @@
 /* line-protocol harness for the stream layer (C03 mux, C02 filter, later C01/C16 rule streams).
  * #includes evical.c of the scratch copy so that its static constructors are reachable;
  * linked against the other library objects. */
+#include <stddef.h>
+/* the guarded hook of evical.c: every unfolded line _ical_proc acts upon is logged here */
+static char linelog[1 << 20];
+static size_t nlinelog;
+static int linelog_on;
+void echse_verif_line(const char *line, size_t len)
+{
+	if (!linelog_on) return;
+	for (size_t i = 0; i < len && nlinelog + 4 < sizeof(linelog); i++) {
+		static const char hx[] = "0123456789abcdef";
+		linelog[nlinelog++] = hx[(unsigned char)line[i] >> 4];
+		linelog[nlinelog++] = hx[(unsigned char)line[i] & 15];
+	}
+	if (nlinelog + 2 < sizeof(linelog)) linelog[nlinelog++] = ',';
+}
 #include "evical.c"
 #include <inttypes.h>
 
@@ -41,6 +56,100 @@ static echs_evstrm_t parse_tree(void)
 	return NULL;
 }
 
+/* ---------------------------------------------------------------- parser ops */
+static void pnms(const char *k, nummapstr_t x)
+{
+	const char *t;
+	uintptr_t n;
+	if (!x) printf("|%s=", k);
+	else if ((t = nummapstr_str(x))) printf("|%s=s:%s", k, t);
+	else if ((n = nummapstr_num(x)) != NUMMAPSTR_NAN) printf("|%s=n:%lu", k, (unsigned long)n);
+	else printf("|%s=nan", k);
+}
+static void pstr(const char *k, const char *v)
+{
+	printf("|%s=", k);
+	if (!v) { printf("~"); return; }
+	for (; *v; v++) { if (*v == '|' || *v == '}' || *v == '\n' || *v == ' ' || *v == '\\' || (unsigned char)*v < 32) printf("\\x%02x", (unsigned char)*v); else putchar(*v); }
+}
+static void dump_task(echs_task_t t, int nocc)
+{
+	printf("S{uid=%s", t->oid ? obint_name(t->oid) : "~");
+	pstr("cmd", t->cmd);
+	pnms("owner", t->owner);
+	pnms("u", t->run_as.u);
+	pnms("g", t->run_as.g);
+	pstr("wd", t->run_as.wd);
+	pstr("sh", t->run_as.sh);
+	pstr("in", t->in); pstr("out", t->out); pstr("err", t->err);
+	printf("|mail=%u%u%u%u%u%u", t->mailout, t->moutset, t->mailerr, t->merrset, t->mailrun, t->mrunset);
+	printf("|umsk=%u|maxsim=%u", (unsigned)t->umsk, (unsigned)t->max_simul);
+	pstr("org", t->org);
+	printf("|att=");
+	if (t->att) for (size_t i = 0; i < t->att->nl; i++) { printf("%s", i ? "," : ""); pstr("a", t->att->l[i]); }
+	pstr("desc", t->desc);
+	printf("|vtod=%u", (unsigned)t->vtod_typ);
+	if (t->vtod_typ == 1) printf("|timeout=%lld", (long long)t->timeout.d);
+	else if (t->vtod_typ == 2) printf("|due=%016llx", (unsigned long long)t->due.u);
+	printf("|occ=");
+	if (t->strm) {
+		for (int i = 0; i < nocc; i++) {
+			echs_event_t e = echs_evstrm_pop(t->strm);
+			if (echs_event_0_p(e)) { printf("%s-", i ? "," : ""); break; }
+			printf("%s%016llx+%lld", i ? "," : "", (unsigned long long)e.from.u, (long long)e.dur.d);
+		}
+	} else printf("~");
+	printf("}");
+}
+
+static void do_parse(char *hex, char **sizes, int nsizes, int nocc, int withlines)
+{
+	static char txt[1 << 20];
+	size_t len = 0;
+	for (char *h = hex; h[0] && h[1] && len + 1 < sizeof(txt); h += 2) { unsigned v; sscanf(h, "%2x", &v); txt[len++] = (char)v; }
+	txt[len] = 0;
+	ical_parser_t pp = NULL;
+	size_t off = 0;
+	int first = 1;
+	nlinelog = 0; linelog_on = withlines;
+	char *prev = NULL;
+	for (int k = 0; off < len; k++) {
+		size_t c = k < nsizes ? strtoul(sizes[k], NULL, 10) : len - off;
+		if (c == 0 || c > len - off) c = len - off;
+		/* callers hand the parser a buffer of their own that is valid until the next push: copy the chunk so that
+		 * reading past its end is visible to ASan */
+		char *chunk = malloc(c);
+		memcpy(chunk, txt + off, c);
+		off += c;
+		free(prev);          /* a caller's buffer stays valid until it pushes the next one (or finishes) */
+		prev = chunk;
+		if (echs_evical_push(&pp, chunk, c) >= 0) {
+			for (;;) {
+				echs_instruc_t ins = echs_evical_pull(&pp);
+				if (ins.v == INSVERB_SCHE) {
+					if (ins.t == NULL) continue;
+					printf("%s", first ? "" : " "); first = 0;
+					dump_task(ins.t, nocc);
+					free_echs_task(ins.t);
+				} else if (ins.v == INSVERB_UNSC) {
+					printf("%sU{%s}", first ? "" : " ", ins.o ? obint_name(ins.o) : "~"); first = 0;
+				} else if (ins.v == INSVERB_RESC) {
+					printf("%sR{%s}", first ? "" : " ", ins.o ? obint_name(ins.o) : "~"); first = 0;
+				} else break;
+			}
+		}
+	}
+	if (pp != NULL) {
+		echs_instruc_t ins = echs_evical_last_pull(&pp);
+		if (ins.v == INSVERB_SCHE && ins.t != NULL) { printf("%sL", first ? "" : " "); first = 0; dump_task(ins.t, nocc); free_echs_task(ins.t); }
+	}
+	free(prev);
+	linelog_on = 0;
+	if (first) printf("none");
+	if (withlines) { linelog[nlinelog] = 0; printf(" # %s", linelog); }
+	putchar('\n');
+}
+
 int main(void)
 {
 	static char line[1 << 22];
@@ -51,7 +160,11 @@ int main(void)
 		ntk = 0;
 		for (char *p = strtok(line, " "); p && ntk < (1 << 18); p = strtok(NULL, " ")) toks[ntk++] = p;
 		if (ntk == 0) { puts("bad-op"); continue; }
-		if (!strcmp(toks[0], "m.run")) {
+		if ((!strcmp(toks[0], "p.parse") || !strcmp(toks[0], "p.lines")) && ntk >= 2) {
+			/* p.parse HEX | chunk sizes…   (p.lines: also the unfolded lines the parser acted upon) */
+			int bar = 2;
+			do_parse(toks[1], toks + (ntk > bar ? bar + 1 : ntk), ntk > bar + 1 ? ntk - bar - 1 : 0, 4, !strcmp(toks[0], "p.lines"));
+		} else if (!strcmp(toks[0], "m.run")) {
 			int hash = 1;
 			while (hash < ntk && strcmp(toks[hash], "#")) hash++;
 			tk = toks; ptk = 1;
